@@ -114,6 +114,7 @@ def check(ctx):
     _r4(ctx, cf)
     r4_scratch_fully_written(ctx, cf)
     r4_carried_state(ctx, cf)
+    no_state_between_calls(ctx, cf, "C08-R4")
     r4_no_hidden_frequency_filter(ctx)
 
 
@@ -670,3 +671,95 @@ def r4_no_hidden_frequency_filter(ctx):
     call, eff = effective_freq(m, "wernet_nilsson")
     ctx.decide(eff == 0.0, "C08-R4", call or m.functions["wernet_nilsson"], HB, "wernet_nilsson", "per-frame result: pre-filter frequency threshold is 0", "",
                "wernet_nilsson calls _compute_bounded_geometry with an effective freq of %r: a bond present in few frames of the trajectory is removed from the frames where it exists" % (eff,))
+
+
+KERNEL_DIRS = ("mdtraj/geometry/src", "mdtraj/geometry/include", "mdtraj/rmsd/src", "mdtraj/rmsd/include")
+_STATIC_CONTROL = """
+int f(int n) {
+  // static int not_this = 0;
+  static float* table = NULL;
+  const char* s = "static int x";
+  return n;
+}
+static int g(int n) { return n; }
+"""
+
+
+def _static_locals(text):
+    """[(line, declaration text)] of `static` declarations inside a function body (comments and string literals blanked; the braces of
+    namespace / class / extern "C" blocks are not function bodies)."""
+    t = re.sub(r"/\*.*?\*/", lambda m: re.sub(r"[^\n]", " ", m.group(0)), text, flags=re.S)
+    t = re.sub(r"//[^\n]*", lambda m: " " * len(m.group(0)), t)
+    t = re.sub(r'"(\\.|[^"\\\n])*"', lambda m: '"' + " " * (len(m.group(0)) - 2) + '"', t)
+    out = []
+    stack = []      # kind of every open brace: 'fn' | 'scope' | 'block'
+    i, line = 0, 1
+    stmt_start = 0
+    while i < len(t):
+        c = t[i]
+        if c == "\n":
+            line += 1
+        if c == "{":
+            head = t[stmt_start:i]
+            if any(k == "fn" for k in stack):
+                kind = "block"
+            elif re.search(r"\b(namespace|class|struct|union|enum)\b[^;(){}]*$", head) or re.search(r'extern\s*"\s*C?\s*"\s*$', head) or re.search(r"=\s*$", head):
+                kind = "scope"
+            elif re.search(r"\)\s*(const\s*)?(:\s*[^{};]*)?$", head):
+                kind = "fn"
+            else:
+                kind = "scope"
+            stack.append(kind)
+            stmt_start = i + 1
+        elif c == "}":
+            if stack:
+                stack.pop()
+            stmt_start = i + 1
+        elif c == ";":
+            head = t[stmt_start:i]
+            if any(k == "fn" for k in stack) and re.match(r"\s*static\b", head):
+                out.append((line - head.count("\n") + (len(head) - len(head.lstrip())) * 0, " ".join(head.split())))
+            stmt_start = i + 1
+        i += 1
+    return out
+
+
+def no_state_between_calls(ctx, cf, rule):
+    """A kernel may not keep anything from one call to the next: a `static` local (a cached table, a buffer kept 'because it only depends on
+    n') makes the result of a call depend on the calls before it and is shared by all threads.  Constants (static const ... = literal) are
+    allowed.  Candidates are found on the token stream of every kernel source and header; each is confirmed on the clang AST."""
+    ctrl = _static_locals(_STATIC_CONTROL)
+    if [d for _l, d in ctrl] != ["static float* table = NULL"]:
+        raise AnalysisError("no_state_between_calls: the built-in positive control is not recognised (%s)" % ctrl)
+    n_files = 0
+    found = []
+    for d in KERNEL_DIRS:
+        full = os.path.join(ctx.repo, d)
+        if not os.path.isdir(full):
+            continue
+        for f in sorted(os.listdir(full)):
+            if not f.endswith((".c", ".cpp", ".cc", ".h", ".hpp")):
+                continue
+            rel = d + "/" + f
+            n_files += 1
+            ctx.analysed_files.add(rel)
+            with open(os.path.join(full, f), errors="replace") as fh:
+                txt = fh.read()
+            for line, decl in _static_locals(txt):
+                m_ = re.match(r"static\s+const\b[^=]*=(.*)$", decl)
+                if m_:
+                    # a constant: its initialiser may only mention literals, macros in capitals and calls (no variable of the enclosing function)
+                    names = [(x.group(1), x.group(2)) for x in re.finditer(r"\b([A-Za-z_]\w*)\b(\s*\()?", m_.group(1))]
+                    if all(par or nm.isupper() or nm in ("float", "double", "int", "unsigned", "long", "char", "const", "sizeof", "f", "F", "u", "U", "l", "L", "x", "X", "e", "E") or re.fullmatch(r"[0-9a-fA-FxXuUlLfF]+", nm)
+                           for nm, par in names):
+                        continue
+                if re.match(r"static\s+(inline\s+)?[\w:<>\*&\s]+\(", decl) and "=" not in decl:
+                    continue        # a local function declaration
+                found.append((rel, line, decl))
+    if n_files < 8:
+        raise AnalysisError("no_state_between_calls: only %d kernel sources found" % n_files)
+    for rel, line, decl in found:
+        ctx.violated(rule, line, rel, "(function-local static)", "`%s`" % decl[:60],
+                     "`%s` lives on between calls: a later call (other size, other input) reuses what an earlier one left, and concurrent callers share it" % decl[:80])
+    if not found:
+        ctx.holds(rule, 1, KERNEL_DIRS[0], "(kernels)", "no kernel keeps a function-local static between calls", "%d sources and headers scanned" % n_files)
